@@ -80,20 +80,21 @@ def okAll : List Name → List Name → List Name → Bool
   | prev, c :: cs, o :: os => okUnique prev c o && okAll (o :: prev) cs os
   | _, _, _ => false
 
-/-- the glyphs that get renamed: those the post-processor has source information for -/
+/-- the glyphs that get renamed: those the post-processor has source information for, except '.notdef' -/
 def covered (i : Input) (out : List Name) : List (Name × Name) :=
-  (i.order.zip out).filter (fun p => inGs i.glyphSet p.1)
+  (i.order.zip out).filter (fun p => renames i p.1)
 
-/-- the glyphs that keep their name: the post-processor has no source information for them -/
-def unrenamed (i : Input) : List Name := i.order.filter (fun n => !inGs i.glyphSet n)
+/-- the glyphs that keep their name: the post-processor has no source information for them, or the glyph is
+    '.notdef' (whose name the OpenType/CFF formats fix) -/
+def unrenamed (i : Input) : List Name := i.order.filter (fun n => !renames i n)
 
 /-- per-glyph part of the property for a renamed font, relative to the names `taken` from the start:
-    same number of glyphs in the same positions; glyphs without source information keep their name;
+    same number of glyphs in the same positions; glyphs without source information and '.notdef' keep their name;
     every other glyph gets its candidate, made unique by a numeric suffix only when needed (a candidate
     that is `taken` or was given out earlier needs one); all those names are legal -/
 def holdsRenamedFrom (taken : List Name) (i : Input) (out : List Name) : Bool :=
   out.length == i.order.length &&
-  (i.order.zip out).all (fun p => inGs i.glyphSet p.1 || p.2 == p.1) &&
+  (i.order.zip out).all (fun p => renames i p.1 || p.2 == p.1) &&
   okAll taken ((covered i out).map (fun p => specCand i p.1)) ((covered i out).map (·.2)) &&
   (covered i out).all (fun p => legalName p.2)
 
